@@ -85,21 +85,21 @@ type lq struct {
 
 // LockRun implements wx.Run.
 type LockRun struct {
-	cfg       *LockCfg
-	w         ecs.World
+	cfg        *LockCfg
+	w          ecs.World
 	a, r, z, d ecs.ID
-	e         [6]ecs.Entity
-	cached    ecs.CachedFilter
-	qs        []*lq
-	probes    int
-	resets    int
-	regProbed bool
-	relTarget int // which of e1/e2 the relation children point to
-	zOn       bool
-	outcome   string
-	dead      bool
-	entries   []lockEntry
-	Calls     int
+	e          [6]ecs.Entity
+	cached     ecs.CachedFilter
+	qs         []*lq
+	probes     int
+	resets     int
+	regProbed  bool
+	relTarget  int // which of e1/e2 the relation children point to
+	zOn        bool
+	outcome    string
+	dead       bool
+	entries    []lockEntry
+	Calls      int
 }
 
 type lockEntry struct {
